@@ -55,12 +55,17 @@ class ScriptedProcess:
 
     def simulate_one_path(self):
         from rpylib.montecarlo.path import StochasticJumpPath
-        s = self.terminals[self.k]
+        s = self.terminals[self.k % len(self.terminals)]
         self.k += 1
+        if isinstance(s, (list, tuple)):      # (value at the middle date, value at maturity)
+            return StochasticJumpPath(np.array([0.0, 0.5, 1.0]), np.zeros(3), np.array([0.0, float(s[0]), float(s[1])]))
         return StochasticJumpPath(np.array([0.0, 1.0]), np.zeros(2), np.array([0.0, float(s)]))
 
 
-def run_case(tid, terms, strikes, cv_strikes, notional, df, spot_stats, cv_price_mode="mean"):
+def run_case(tid, terms, strikes, cv_strikes, notional, df, spot_stats, cv_price_mode="mean", nproc=1, barrier=None, offset=0):
+    """nproc > 1: the multi-process branch (every path carries the same terminal value: which worker simulates which index
+    is not scripted); barrier = (kind, level): an up-and-out / up-and-in call on three-date paths (terms are pairs);
+    offset: a large common part of the terminal values (quiet samples: mean >> standard deviation)"""
     """payoff component c = max(S - strikes[c], 0); control j = call struck at cv_strikes[j]"""
     import rpylib.montecarlo.standard.engine as eng
     from rpylib.montecarlo.configuration import ConfigurationStandard
@@ -68,18 +73,31 @@ def run_case(tid, terms, strikes, cv_strikes, notional, df, spot_stats, cv_price
     from rpylib.product.product import ControlVariates, Product
     from rpylib.product.underlying import Spot
     n, dim = len(terms), len(strikes)
-    ys = [[max(s - k, 0) for s in terms] for k in strikes]
+    if barrier is not None:
+        def bpay(pair, k):
+            hit = max(pair) > barrier[1]
+            alive = (not hit) if barrier[0] == "UO" else hit
+            return max(pair[1] - k, 0) if alive else 0
+        ys = [[bpay(p_, k) for p_ in terms] for k in strikes]
+    else:
+        ys = [[max(s - k, 0) for s in terms] for k in strikes]
     def cvpay(s, k):      # k >= 0: call struck at k ; k < 0: put struck at -k
         return max(s - k, 0) if k >= 0 else max(-k - s, 0)
     # a control given as a list of strikes is a vector-strike product: one control payoff per payoff component
     def comp_strike(k, c):
         return k[c] if isinstance(k, (list, tuple)) else k
     xs = [[[cvpay(s, comp_strike(k, c)) for s in terms] for c in range(dim)] for k in cv_strikes]   # xs[control][component][path]
-    hdr = {"kind": f"dim{dim}:cv{len(cv_strikes)}", "n": n, "dim": dim, "ys": ys, "xs": xs, "ncv": len(cv_strikes)}
+    hdr = {"kind": f"dim{dim}:cv{len(cv_strikes)}" + (":np%d" % nproc if nproc > 1 else "") + (":barrier" if barrier else "") + (":quiet" if offset else ""),
+           "n": n, "dim": dim, "ys": ys, "xs": xs, "ncv": len(cv_strikes), "multi": nproc > 1,
+           "yd": [[y - (offset - strikes[c]) for y in ys[c]] for c in range(dim)] if offset else ys}
     scale = notional * df
     ev = []
     try:
-        payoff = Vanilla(strike=float(strikes[0]) if dim == 1 else [float(k) for k in strikes], payoff_type=PayoffType.CALL)
+        if barrier is not None:
+            from rpylib.product.payoff import Barrier, BarrierType
+            payoff = Barrier(float(strikes[0]), PayoffType.CALL, BarrierType.UP_AND_OUT if barrier[0] == "UO" else BarrierType.UP_AND_IN, float(barrier[1]))
+        else:
+            payoff = Vanilla(strike=float(strikes[0]) if dim == 1 else [float(k) for k in strikes], payoff_type=PayoffType.CALL)
         product = Product(Spot(), payoff, maturity=1.0, notional=float(notional))
         cv = None
         if cv_strikes:
@@ -93,7 +111,7 @@ def run_case(tid, terms, strikes, cv_strikes, notional, df, spot_stats, cv_price
             prices = [(np.array([np.mean(xs[j][c]) * scale for c in range(dim)]) if isinstance(k, (list, tuple))
                        else float(np.mean(xs[j][0]) * scale)) for j, k in enumerate(cv_strikes)]
             cv = ControlVariates(prods, prices)
-        conf = ConfigurationStandard(mc_paths=n, seed=3, control_variates=cv, activate_spot_statistics=spot_stats, nb_of_processes=1)
+        conf = ConfigurationStandard(mc_paths=n, seed=3, control_variates=cv, activate_spot_statistics=spot_stats, nb_of_processes=nproc)
         proc = ScriptedProcess(terms, df)
         engine = eng.Engine(conf, proc)
         real_create = eng.create_mc_statistics
@@ -175,6 +193,22 @@ def main():
                 continue
             notional, df = rng.choice([1, 2, 4]), rng.choice([1.0, 0.5, 0.25])
             traces.append(run_case(f"m{len(traces)}", terms, strikes, cvk, notional, df, spot_stats=rng.random() < 0.3))
+    # the multi-process branch: every index 0 .. n-1 filled exactly once, also when n is no multiple of the workers' chunks
+    for (n, nproc) in ((25, 2), (7, 2), (10, 3)) if quick else ((25, 2), (7, 2), (10, 3), (33, 4), (1000, 16), (26, 2)):
+        traces.append(run_case(f"m{len(traces)}", [7] * n, [2], [], 1, 0.5, spot_stats=False, nproc=nproc))
+    # path-dependent payoff, spot statistics on and off (three-date paths, some crossing the barrier at the middle date only)
+    pairs = [(4, 6), (9, 5), (5, 9), (3, 3), (10, 10), (6, 4), (8, 7), (2, 8)]
+    for kind in ("UO", "UI"):
+        for spot_stats in (False, True):
+            for rep in range(2 if quick else 6):
+                terms = [rng.choice(pairs) for _ in range(rng.randint(3, 8))]
+                traces.append(run_case(f"m{len(traces)}", terms, [rng.choice([3, 5])], [], rng.choice([1, 2]), 0.5, spot_stats=spot_stats,
+                                       barrier=(kind, 7.5)))
+    # quiet samples: a large common part (mean / standard deviation of 1e6)
+    for rep in range(3 if quick else 10):
+        M = 1000000
+        terms = [M + rng.randint(0, 3) for _ in range(rng.randint(4, 10))]
+        traces.append(run_case(f"m{len(traces)}", terms, [0] if rep % 2 == 0 else [0, 1], [], 1, 1.0, spot_stats=False, offset=M))
     with open(out, "w") as f:
         for t in traces:
             f.write(json.dumps(t, separators=(",", ":")) + "\n")
